@@ -463,12 +463,16 @@ class StructView(View):
 # --------------------------------------------------------------------------------------------------------
 # Python-level records
 # --------------------------------------------------------------------------------------------------------
+class FieldsDict(dict):
+    """the instance dictionary of a Rec (recognisable when handed out as obj.__dict__)"""
+
+
 class Rec:
     """A mutable Python-level object: attribute dictionary (+ class for method lookup)."""
 
     def __init__(self, cls=None, fields=None, name="rec", ident=None):
         self.__dict__["_cls"] = cls
-        self.__dict__["_fields"] = dict(fields or {})
+        self.__dict__["_fields"] = FieldsDict(fields or {})
         self.__dict__["_name"] = name
         self.__dict__["_ident"] = ident  # optional z3 term giving the object an SMT identity
 
